@@ -12,6 +12,35 @@ LIBM2(_ZSt3powIllEN9__gnu_cxx11__promote_2IT_T0_NS0_9__promoteIS2_XsrSt12__is_in
 /* std::fmod<double,long>, <long,double> */
 LIBM2(_ZSt4fmodIdlEN9__gnu_cxx11__promote_2IT_T0_NS0_9__promoteIS2_XsrSt12__is_integerIS2_E7__valueEE6__typeENS4_IS3_XsrS5_IS3_E7__valueEE6__typeEE6__typeES2_S3_, double, long)
 LIBM2(_ZSt4fmodIldEN9__gnu_cxx11__promote_2IT_T0_NS0_9__promoteIS2_XsrSt12__is_integerIS2_E7__valueEE6__typeENS4_IS3_XsrS5_IS3_E7__valueEE6__typeEE6__typeES2_S3_, long, double)
+/* one-argument libm functions: total, no trap, result unconstrained (own definitions: CBMC's library models of these are
+ * floating-point programs no clause needs) */
+#define LIBM1(name) double name(double x) { (void)x; return __g2c_nondet_double(); }
+LIBM1(sin) LIBM1(cos) LIBM1(tan) LIBM1(asin) LIBM1(acos) LIBM1(atan) LIBM1(sinh) LIBM1(cosh) LIBM1(tanh) LIBM1(exp) LIBM1(log) LIBM1(log10) LIBM1(sqrt)
+LIBM1(ceil) LIBM1(floor) LIBM1(round) LIBM1(trunc) LIBM1(fabs)
+/* the integer overloads of <cmath> (std::sin<long> etc.): convert and call the double function */
+#define LIBM1I(name) double name(long x) { (void)x; return __g2c_nondet_double(); }
+LIBM1I(_ZSt3sinIlEN9__gnu_cxx11__enable_ifIXsrSt12__is_integerIT_E7__valueEdE6__typeES3_)
+LIBM1I(_ZSt3cosIlEN9__gnu_cxx11__enable_ifIXsrSt12__is_integerIT_E7__valueEdE6__typeES3_)
+LIBM1I(_ZSt3tanIlEN9__gnu_cxx11__enable_ifIXsrSt12__is_integerIT_E7__valueEdE6__typeES3_)
+LIBM1I(_ZSt4asinIlEN9__gnu_cxx11__enable_ifIXsrSt12__is_integerIT_E7__valueEdE6__typeES3_)
+LIBM1I(_ZSt4acosIlEN9__gnu_cxx11__enable_ifIXsrSt12__is_integerIT_E7__valueEdE6__typeES3_)
+LIBM1I(_ZSt4atanIlEN9__gnu_cxx11__enable_ifIXsrSt12__is_integerIT_E7__valueEdE6__typeES3_)
+LIBM1I(_ZSt4sinhIlEN9__gnu_cxx11__enable_ifIXsrSt12__is_integerIT_E7__valueEdE6__typeES3_)
+LIBM1I(_ZSt4coshIlEN9__gnu_cxx11__enable_ifIXsrSt12__is_integerIT_E7__valueEdE6__typeES3_)
+LIBM1I(_ZSt4tanhIlEN9__gnu_cxx11__enable_ifIXsrSt12__is_integerIT_E7__valueEdE6__typeES3_)
+LIBM1I(_ZSt3expIlEN9__gnu_cxx11__enable_ifIXsrSt12__is_integerIT_E7__valueEdE6__typeES3_)
+LIBM1I(_ZSt3logIlEN9__gnu_cxx11__enable_ifIXsrSt12__is_integerIT_E7__valueEdE6__typeES3_)
+LIBM1I(_ZSt5log10IlEN9__gnu_cxx11__enable_ifIXsrSt12__is_integerIT_E7__valueEdE6__typeES3_)
+LIBM1I(_ZSt4sqrtIlEN9__gnu_cxx11__enable_ifIXsrSt12__is_integerIT_E7__valueEdE6__typeES3_)
+LIBM1I(_ZSt4ceilIlEN9__gnu_cxx11__enable_ifIXsrSt12__is_integerIT_E7__valueEdE6__typeES3_)
+LIBM1I(_ZSt5floorIlEN9__gnu_cxx11__enable_ifIXsrSt12__is_integerIT_E7__valueEdE6__typeES3_)
+LIBM1I(_ZSt5roundIlEN9__gnu_cxx11__enable_ifIXsrSt12__is_integerIT_E7__valueEdE6__typeES3_)
+LIBM1I(_ZSt5truncIlEN9__gnu_cxx11__enable_ifIXsrSt12__is_integerIT_E7__valueEdE6__typeES3_)
+LIBM1I(_ZSt4fabsIlEN9__gnu_cxx11__enable_ifIXsrSt12__is_integerIT_E7__valueEdE6__typeES3_)
+LIBM1I(_ZSt3absIlEN9__gnu_cxx11__enable_ifIXsrSt12__is_integerIT_E7__valueEdE6__typeES3_)
+double _ZSt3absd(double x) { (void)x; return __g2c_nondet_double(); }   /* std::abs(double) */
+LIBM2(_ZSt3powIilEN9__gnu_cxx11__promote_2IT_T0_NS0_9__promoteIS2_XsrSt12__is_integerIS2_E7__valueEE6__typeENS4_IS3_XsrS5_IS3_E7__valueEE6__typeEE6__typeES2_S3_, int, long)
+double atan2(double y, double x) { (void)x; (void)y; return __g2c_nondet_double(); }
 double pow(double x, double y) { (void)x; (void)y; return __g2c_nondet_double(); }
 double fmod(double x, double y) { (void)x; (void)y; return __g2c_nondet_double(); }
 #endif
